@@ -162,3 +162,31 @@ func (nc *Coordinator) VerifModuleLists() map[string][2]string {
 
 // VerifMinInterval is the shortest module interval Configure found (seconds).
 func (nc *Coordinator) VerifMinInterval() int64 { return nc.minInterval }
+
+// VerifDeliver hands evaluation results (nil = the evaluator's answer for a group that no longer exists) to the
+// coordinator the way the evaluator does — on the reply channel a REAL responseLoop reads — and returns when the loop
+// and everything it started for them (checkAndSendResponseToModules, notifyModule) has finished.  The loop runs on a
+// coordinator value of its own that shares this coordinator's modules, group records and locks: its goroutines can then
+// be waited for, which this coordinator's own WaitGroup does not allow (a group refresh whose storage request timed out
+// leaves goroutines registered in it for ever).
+func (nc *Coordinator) VerifDeliver(responses ...*protocol.ConsumerGroupStatus) {
+	run := &Coordinator{
+		App:               nc.App,
+		Log:               nc.Log,
+		modules:           nc.modules,
+		minInterval:       nc.minInterval,
+		evaluatorResponse: make(chan *protocol.ConsumerGroupStatus),
+		quitChannel:       make(chan struct{}),
+		templateParseFunc: nc.templateParseFunc,
+		clusters:          nc.clusters,
+		clusterLock:       nc.clusterLock,
+	}
+	run.notifyModuleFunc = run.notifyModule
+	run.running.Add(1)
+	go run.responseLoop()
+	for _, response := range responses {
+		run.evaluatorResponse <- response
+	}
+	close(run.quitChannel)
+	run.running.Wait()
+}
